@@ -52,6 +52,11 @@ def gen(rng, ctx):
         if not isout:
             parent["edges"].append([w, rng.choice(multi)])
         holes.append(w)
+    scan = False
+    if rng.random() < 0.3:
+        # an instance whose pin names contain each other (D/SD, Q/QN): ignore_pins given as a plain string
+        parent = G.add_blackboxes(rng, parent, 1, bbdefs=[{"name": "sdff", "inputs": ["D", "SD", "SE", "CK"], "outputs": ["Q", "QN"]}], prefix="sc")
+        scan = True
     children = [gen_child(rng, i) for i in range(rng.randint(1, 2))]
     if rng.random() < 0.4:
         # a child with a feed-through port (input that is also an output); only usable with add_subcircuit
@@ -105,8 +110,10 @@ def gen(rng, ctx):
             nodes_now += [f"{name}_{n}" for n, _, _ in children[ci]["nodes"]]
     if rng.random() < 0.5:
         ign = rng.choice([None, None, "p", ["p", "o"], "a0", ["a1"]])
+        if scan:
+            ign = rng.choice(["SD", "QN", "CK", ["SD"], ["QN", "SE"], None])
         ops.append({"op": "strip_blackboxes", "ignore_pins": ign})
-    return {"parent": parent, "children": children, "ops": ops, "via": rng.choice(["graph", "api"])}
+    return {"parent": parent, "children": children, "ops": ops, "via": rng.choice(["graph", "api"]), "probe_rejected": rng.random() < 0.25}
 
 
 def func_check(ctx, what, before_net, after_net, spliced, rename=None):
@@ -190,6 +197,8 @@ def check(case, ctx):
             ctx.count("cmp:structural")
             if ign:
                 ctx.count("strip_with_ignore")
+            if isinstance(ign, str) and any(p != ign and (p in ign) for _, bi, bo in before.bbs.values() for p in bi | bo):
+                ctx.count("strip_str_ignore_with_substring_pins")
             if before.bbs:
                 ctx.count("strip_with_blackboxes")
             d = exp.diff(after)
@@ -218,6 +227,25 @@ def check(case, ctx):
             rename = None
         elif op["op"] == "add_blackbox":
             ins, outs = sorted(knet.inputs()), sorted(knet.outputs)
+            if case.get("probe_rejected") and ins:
+                # a rejected composition call must leave every pre-existing node alone
+                pin = f"{name}.{ins[0]}"
+                src = sorted(n for n in c.nodes() if c.type(n) in G.ALL_GATES + ["input"])
+                if pin not in c and src:
+                    c.add(pin, "buf", fanin=src[0], output=True)
+                    psnap = snapshot(c)
+                    bbp = cg.BlackBox(f"bb_child{ci}", ins, outs)
+                    okp, rp = ctx.call(c.add_blackbox, bbp, name, dict(op["connections"]))
+                    ctx.count("rejected_call_probe")
+                    if okp or not isinstance(rp, ValueError):
+                        ctx.violation("name_clash_accepted", f"{what}: instance pin name {pin!r} already used by a node, call gave {rp!r}")
+                        return
+                    if snapshot(c) != psnap:
+                        ctx.violation("rejected_call_changed_parent", f"{what}: the rejected call changed the parent: {snapshot_diff(psnap, snapshot(c))}")
+                        return
+                    c.remove(pin)
+                    before_net = Net.of(c)
+                    before = K.State.of_net(before_net)
             key = (ci,)
             if key not in bbtypes:
                 bbtypes[key] = cg.BlackBox(f"bb_child{ci}", ins, outs)
@@ -271,5 +299,5 @@ def check(case, ctx):
 
 
 def gates(counters, table, tier):
-    need = ["child_with_feedthrough_port", "instance_name_is_prefix_of_another", "op:add_subcircuit", "op:add_blackbox", "op:fill_blackbox", "op:strip_blackboxes", "partial_connections", "child_with_nested_blackbox", "fill_after_other_calls", "fill_immediately", "same_child_instantiated_twice", "strip_with_ignore", "strip_with_blackboxes", "functional_checks"]
+    need = ["rejected_call_probe", "strip_str_ignore_with_substring_pins", "child_with_feedthrough_port", "instance_name_is_prefix_of_another", "op:add_subcircuit", "op:add_blackbox", "op:fill_blackbox", "op:strip_blackboxes", "partial_connections", "child_with_nested_blackbox", "fill_after_other_calls", "fill_immediately", "same_child_instantiated_twice", "strip_with_ignore", "strip_with_blackboxes", "functional_checks"]
     return [f"{k} seen {counters.get(k, 0)} times" for k in need if counters.get(k, 0) < 5]
